@@ -9,7 +9,7 @@ Spec (plain JSON):
             "name", "args", "kwargs", "channels": [..] | null, "flags": [success, failure, notify], "meta": {attr: json},
             "kind": "plain"|"slow"|"none"|"raise", "slow": n, "tamper_call": {key: v}, "tamper_value": {key: v}}
   FORGED = {"victim": "B"|"A0", "when": "before"|"after", "raw": latin-1 text of the packet (trailing '~' stripped, delimiter appended)}
-The uid of an event is 100*wave+index and travels as first positional argument.
+The uid of an event is UID0+100*wave+index and travels as first positional argument.
 """
 import json
 import os
@@ -31,6 +31,7 @@ from vlib.runner import Prop, Result
 
 NAMES = list(H.NAMES)
 ABSENT = '<absent>'
+UID0 = 731000000   # uids are UID0 + 100*wave + index: a forged packet does not contain such a number by accident
 # hostile values that no event attribute legitimately has (True/None/0/'c0' could be the genuine value)
 DISTINCT = ['HX', 666, ['HX'], {'h': 1}, [['c0']], -1, 2.5]
 SENT = ['HX', 666, ['HX'], {'h': 1}, 0, 1, '', None, True, 'c0', ['c0'], [['c0']], -1, 2.5]
@@ -384,7 +385,7 @@ class C19(Prop):
         scripts = {}
         for wi, w in enumerate(waves):
             for ei, sc in enumerate(w['sends']):
-                scripts[100 * wi + ei] = sc
+                scripts[UID0 + 100 * wi + ei] = sc
         for uid, sc in scripts.items():
             msg = self._roundtrip(sc, uid)
             if msg:
@@ -415,7 +416,7 @@ class C19(Prop):
                 if f['when'] == 'before':
                     inject(f)
             for ei, sc in enumerate(w['sends']):
-                uid = 100 * wi + ei
+                uid = UID0 + 100 * wi + ei
                 ev = _mk(sc['name'], _args(sc, uid), sc['kwargs'])
                 ev.success, ev.failure, ev.notify = sc['flags']
                 for k, v in sc['meta'].items():
@@ -445,7 +446,7 @@ class C19(Prop):
 
         # benign follow-up on the hostile connections (a later, separate read)
         follow = []
-        for label, proc, uid in (('H>B', 'B', 9001), ('H>A0', 'A0', 9002)):
+        for label, proc, uid in (('H>B', 'B', UID0 + 9001), ('H>A0', 'A0', UID0 + 9002)):
             if label in rig.links:
                 # the firewalls deny at most two of the three names
                 nm = [n for n in NAMES if n not in spec['fw'].get(proc, {}).get('recv', ())][0]
@@ -491,7 +492,7 @@ class C19(Prop):
         for wi, w in enumerate(spec['waves']):
             if len(w['sends']) >= 2:
                 inflight2 = True
-        for uid in sorted(u for u in scripts if u < 9000):
+        for uid in sorted(u for u in scripts if u < UID0 + 9000):
             sc = scripts[uid]
             src = sc['src']
             dst = 'B' if src != 'B' else 'A%d' % sc['to']
@@ -576,10 +577,6 @@ class C19(Prop):
                 for k, v in sc['tamper_value'].items():
                     if k in PROTECTED and any(same(v, d) for d in DISTINCT) and same(getattr(ev, k, ABSENT), v):
                         return bad('attribute-overwritten', 'peer metadata of the answer set %s=%r on the sender\'s event %d' % (k, v, uid))
-        # stray invocations (uids nobody sent)
-        for uid in inv:
-            if isinstance(uid, int) and uid >= 0 and uid not in scripts:
-                return bad('event-duplicated', 'handler ran for unknown uid %r' % uid)
         # ---- benign follow-up after hostile traffic
         for label, proc, uid in follow:
             got = inv.get(uid, [])
